@@ -980,6 +980,24 @@ func cdcWitnesses() []cdcScenario {
 			}
 			return "n1", nil
 		}},
+		// ... on a node that is not leading: the second batch holds nothing but the later commit, gets the key of the
+		// first one and is ignored by the FIFO
+		{Name: "w-multi-commit-entry-split-no-leader", Nodes: 1, Par: cdcFast, Script: func(h *cdcH, g *cdcGen) (string, error) {
+			g.add("single")
+			g.add("multi-notx-2")
+			g.add("single")
+			h.setLog(g)
+			if err := h.apply("n1", 2); err != nil {
+				return "", err
+			}
+			if err := h.settle("n1"); err != nil {
+				return "", err
+			}
+			if err := h.apply("n1", 1); err != nil {
+				return "", err
+			}
+			return "n1", nil
+		}},
 		// a transactional request and an explicit BEGIN..COMMIT: one commit for several statements
 		{Name: "w-transactions", Nodes: 1, Par: cdcFast, Script: func(h *cdcH, g *cdcGen) (string, error) {
 			g.add("single")
@@ -1098,6 +1116,25 @@ func cdcWitnesses() []cdcScenario {
 			}
 			if err := h.snapshot("n1"); err != nil {
 				return "", err
+			}
+			if err := h.restart("n1"); err != nil {
+				return "", err
+			}
+			return "n1", nil
+		}},
+		// snapshot taken right after an apply, while the group may still be in the hand-off channel
+		{Name: "w-snapshot-right-after-apply", Nodes: 1, Par: cdcSlowBatch, Script: func(h *cdcH, g *cdcGen) (string, error) {
+			for i := 0; i < 9; i++ {
+				g.add("single")
+			}
+			h.setLog(g)
+			for i := 0; i < 8; i++ {
+				if err := h.apply("n1", 1); err != nil {
+					return "", err
+				}
+				if err := h.snapshot("n1"); err != nil {
+					return "", err
+				}
 			}
 			if err := h.restart("n1"); err != nil {
 				return "", err
